@@ -44,8 +44,9 @@ pub fn upd_spec(max_blob: u32, max_text: u32, emb: bool) -> impl Strategy<Value 
         if emb { prop_oneof![2 => Just(None), 1 => any::<u32>().prop_map(Some)].boxed() } else { Just(None).boxed() },
         any::<bool>(),
         prop_oneof![3 => Just(None), 1 => (0i64..50).prop_map(Some)],
+        prop::bool::weighted(0.25),
     )
-        .prop_map(|(target, payload, emb, new_title, new_ts)| UpdSpec { target, payload, emb, new_title, new_ts, new_tags: vec![] })
+        .prop_map(|(target, payload, emb, new_title, new_ts, allow_busy)| UpdSpec { target, payload, emb, new_title, new_ts, new_tags: vec![], allow_busy })
 }
 
 pub fn op(max_blob: u32, max_text: u32, emb: bool) -> impl Strategy<Value = Op> {
@@ -95,6 +96,7 @@ pub fn check(c: &Case) -> CheckResult {
         .class_if(s.commit_on_drop > 0, "commit_on_drop")
         .class_if(s.chunked_docs > 0, "chunked_document")
         .class_if(s.updates > 0, "has_update")
+        .class_if(s.double_updates > 0, "same_frame_updated_twice_before_commit")
         .class_if(s.deletes > 0, "has_delete")
         .class_if(s.aborted.is_some(), "aborted_on_api_error")
         .class_if(s.put_errors > 0, "put_error")
